@@ -47,7 +47,7 @@ CHECKS = {
              "schemas) combined with programs with and without paths and schemas: Frame, FromProgram, FrameAlways, Terminates. The "
              "abstract pairs are realised as concrete YAML bases and Oxlip programs, merged by the real Builder and by the real "
              "oal-cli --base, abstracted back field by field and compared with the specification's output record; Frame/FromProgram are "
-             "also evaluated directly on the concrete documents. Bounded, not a proof. Added since: a program whose operations carry tags, summaries, operationIds and descriptions.",
+             "also evaluated directly on the concrete documents. Bounded, not a proof. Added since: a program whose operations carry tags, summaries, operationIds and descriptions. Round 6: the base declares an openapi version of its own (3.0.1 / 3.0.0), a field Frame covers.",
         note="Trusted: TLC, the realisation of abstract field values, the field-wise abstraction of documents. Absent and empty are identified; bases are in the OpenAPI object model's normal form.",
         technique="TLA+ model of the base merge (TLC, all abstract bases x programs) + spec->impl replay through Builder and oal-cli with field-wise abstraction",
     ),
@@ -126,7 +126,7 @@ CHECKS = {
              "configuration keeps the pinned single root scope, where TLC itself finds the declaration/import collision. Every member "
              "is rendered in four trivia styles and resolved by the real resolve(): error class or complete binding table (every "
              "Variable's definition mapped back through the source map) must equal the specification's; for members the real compiler "
-             "accepts, marker properties in the evaluated document show that evaluation used the value of the chosen binder. Added since: use sites after a rec, uses placed after the declarations, module g importing h under the same qualifier; every accepted member's evaluated document is compared with Den.tla's denotation (oracle mode); the DynScope family (caller binder named like a callee parameter); seeded random composites with shadowing, binding tables from ResolveMC.tla in oracle mode.",
+             "accepts, marker properties in the evaluated document show that evaluation used the value of the chosen binder. Added since: use sites after a rec, uses placed after the declarations, module g importing h under the same qualifier; every accepted member's evaluated document is compared with Den.tla's denotation (oracle mode); the DynScope family (caller binder named like a callee parameter); seeded random composites with shadowing, binding tables from ResolveMC.tla in oracle mode. Round 6: the Scopes family is compiled in two layouts - all modules side by side, and the imported modules in lib/ (imports written relative to the importing module) with decoy modules of the same names beside the main module.",
         note="Trusted: TLC, renderer and source map (cross-checked by tree2ast), hook H2. Two unqualified imports of the same name are outside the domain. One open known finding: the same @name declared in two modules shares one component.",
         technique="TLA+ state machine of name resolution vs declarative binding relation (TLC, Scopes family) + spec->impl replay comparing complete binding tables and evaluated markers",
     ),
@@ -160,7 +160,7 @@ CHECKS = {
              "cast with which variant; TLC evaluates Sound = accepted => no crash on each. Every member is rendered and run through "
              "the real load/compile/eval/emit: the predicted outcome class and crash site must be the real ones (4200 members agree "
              "exactly, including the 150 crashes the model predicts), and any panic/abort/hang of an accepted program is a violation "
-             "of the property, matched against KNOWN_FINDINGS.json by (cast site, variant, context). Added since: the Arity, RecPair, RecGraphs(2) and RecInst families, shapes for sums of URIs/relations and numbers outside the status domain (a located error, modelled in EvalAbs.tla), and seeded random composite programs judged by EvalAbs.tla in oracle mode (file mode: one TLC initial state per program).",
+             "of the property, matched against KNOWN_FINDINGS.json by (cast site, variant, context). Added since: the Arity, RecPair, RecGraphs(2) and RecInst families, shapes for sums of URIs/relations and numbers outside the status domain (a located error, modelled in EvalAbs.tla), and seeded random composite programs judged by EvalAbs.tla in oracle mode (file mode: one TLC initial state per program). Round 6: status numbers at and beyond 16/32/64-bit widths are shapes of the family and statuses of the generator.",
         note="Trusted: TLC, renderer. Six genuine defects are recorded as known findings (headers with a join/sum of objects, ranges as a transfer domain, sums of URIs/relations where a URI/relation is consumed, imported functions not re-checked per application); each needs a language-level decision rather than a local patch.",
         technique="TLA+ reference kind checker + abstract interpreter of the evaluator with casts as guards (TLC over position x shape x indirection families) + exact spec->impl replay of outcome class and crash site",
     ),
@@ -185,7 +185,7 @@ CHECKS = {
              "pipeline (the predicted collisions are exactly the real ones) and an independent validator checks every emitted document - "
              "of the pairs, of every accepted member of the position/shape families, recursion shapes, corpus, determinism programs, and "
              "of documents merged with a base - for $ref closure, path variable/parameter bijection, response keys, unique "
-             "operationIds; YAML round-trip equality is evaluated on the OpenAPI object model. Added since: documents of the Uris/Xfers/Ranges/Schemas/RecInst families and of seeded random composites are validated too, whatever outcome the specification predicts; round-trip equality is judged on documents (JSON), not on Rust values.",
+             "operationIds; YAML round-trip equality is evaluated on the OpenAPI object model. Added since: documents of the Uris/Xfers/Ranges/Schemas/RecInst families and of seeded random composites are validated too, whatever outcome the specification predicts; round-trip equality is judged on documents (JSON), not on Rust values. Round 6: the variables of a path key are checked against the path item's parameters also when the item has no operation.",
         note="Trusted: TLC, renderer, the Python validator. One genuine defect (synthesized operationIds collide) is a recorded known finding, recognised by Emit.tla's own prediction of the colliding pairs - a collision the model does not predict is a violation.",
         technique="TLA+ model of reference inlining/registration, path keys and operationId synthesis (TLC over URI pairs) + independent structural validation of every emitted document",
     ),
@@ -212,7 +212,7 @@ CHECKS = {
              "family (rec expressions inside functions applied 1-3 times, nested, imported, rec in rec, explicit and mutual references). "
              "Every member is compiled by the real pipeline: rejection of uncuttable cycles, is_recursive flags, termination, number of "
              "components (distinct instantiations distinct, one instantiation once), closure, no component that is only a reference "
-             "cycle; the real evaluator's event stream (hook H3) is validated event by event against EvalOp.tla's. Added since: kind `rel` in RecGraphs, more RecInst templates (nested functions with two arguments, equal file names in two directories), seeded random composites judged by EvalOp.tla in oracle mode (outcome, flags, components, event stream).",
+             "cycle; the real evaluator's event stream (hook H3) is validated event by event against EvalOp.tla's. Added since: kind `rel` in RecGraphs, more RecInst templates (nested functions with two arguments, equal file names in two directories), seeded random composites judged by EvalOp.tla in oracle mode (outcome, flags, components, event stream). Round 6: RecInst templates in which an evaluated reference / recursive declaration holding a rec is used again inside function applications and rec scopes.",
         note="Trusted: TLC, renderer, hooks H2/H3. One genuine defect (a kinded alias cycle is accepted and emitted as a self-referential $ref) is a recorded known finding.",
         technique="TLA+ state machine of cycles_check (TLC, all graphs) + TLA+ stateful evaluator over recursion families (TLC) + spec->impl replay with trace validation of evaluator events",
     ),
@@ -225,7 +225,7 @@ CHECKS = {
              "TLC evaluates it on every member of eight families that the kind checker model accepts (about 3 000 accepted programs). "
              "Each is rendered (renderer cross-checked by tree2ast), compiled by the real pipeline, and the emitted document - "
              "abstracted into the same shape with implicit components unfolded to the same depth - must equal the denotation; "
-             "differences are classified (response-missing, operation-missing, schema differs, ...). Added since: annotations have a denotation in Den.tla (flow through terms, declarations, parameters, applications, rec unfoldings; placement per construct) and are compared key by key; families Annots (with a pinned variant, ParamPrecedence = use, that classifies the one open precedence finding exactly), DynScope, same-file-name modules; seeded random composite programs, half of them annotated, judged by Den.tla in oracle mode.",
+             "differences are classified (response-missing, operation-missing, schema differs, ...). Added since: annotations have a denotation in Den.tla (flow through terms, declarations, parameters, applications, rec unfoldings; placement per construct) and are compared key by key; families Annots (with a pinned variant, ParamPrecedence = use, that classifies the one open precedence finding exactly), DynScope, same-file-name modules; seeded random composite programs, half of them annotated, judged by Den.tla in oracle mode. Round 6: property marks against the required default of the property's type (shape a-reqmix, required annotations on generated primitives); the type's default counts in object schemas only, as in the emitter.",
         note="Trusted: TLC, renderer, the Python abstraction of documents. Annotations are part of the denotation. Three defects found were fixed (default response media types, response headers per status, shared recursive declarations annotated by their first use); open known findings: two resources with one path, annotation precedence through function parameters.",
         technique="independent TLA+ reference semantics (denotation by unfolding) evaluated by TLC over program families + comparison with the abstraction of the real emitted document",
     ),
